@@ -16,6 +16,9 @@ func All[T any](s []T, f func(T) bool) bool {
 //
 // Returns an empty slice if len(s)==0. Panics if chunkSize <= 0.
 func Chunk[T any](s []T, chunkSize int) [][]T {
+	if chunkSize <= 0 {
+		panic("xslices.Chunk: chunkSize must be positive")
+	}
 	out := make([][]T, (len(s)+chunkSize-1)/chunkSize)
 	for i := range out {
 		start := i * chunkSize
